@@ -584,6 +584,10 @@ def storage_fp(agent) -> Dict[Tuple[int, int], str]:
         for n_, p in hc.items():
             fp[(id(p), 3)] = f"rlparam:{n_}"
     fp[(id(agent.registry), 4)] = "registry"
+    # tensor-valued state kept outside the networks (e.g. the bandits' sigma_inv / theta_0)
+    for attr, val in vars(getattr(agent, "agent", agent)).items():
+        if isinstance(val, torch.Tensor) and val.numel() > 0 and not attr.startswith("_"):
+            fp[(val.untyped_storage().data_ptr(), 6)] = f"tensor_attr:{attr}"
     rms = getattr(agent, "obs_rms", None) if type(agent).__name__ == "RSNorm" else None
     if rms is not None:
         stack = [rms]
